@@ -374,6 +374,14 @@ def _num_operand(draw, ctx, depth, kind, symbolic, prev_op, base_positive_litera
     if k == "reg":
         return A.Operand(signs, A.Reg(draw(st.sampled_from(ctx.regs))))
     # function call
+    if kind == "any" and not symbolic and draw(st.integers(0, 9)) == 0:
+        # a complex argument away from the axes (where the branch cuts are): a+bj with 0.3 <= |a|, |b| <= 3
+        fn = draw(st.sampled_from(_REAL_FUNCS_ANY + _REAL_FUNCS_UNIT + _REAL_FUNCS_POS))
+        re_ = "%d.%d" % (draw(st.integers(0, 2)), draw(st.integers(3, 9)))
+        im_ = "%d.%dj" % (draw(st.integers(0, 2)), draw(st.integers(3, 9)))
+        arg = A.Flat([A.Operand(draw(st.sampled_from(["", "-"])), A.Num("float", re_)), A.Operand("", A.Num("complex", im_))],
+                     [draw(st.sampled_from(["+", "-"]))])
+        return A.Operand(signs, A.Fn(fn, arg))
     fam = draw(st.sampled_from(["any", "any", "unit", "pos"]))
     if fam == "any":
         fn = draw(st.sampled_from(_REAL_FUNCS_ANY))
